@@ -112,6 +112,16 @@ theorem swap_negates_np {M N : ℕ} (hM : 0 < M) (hN : 0 < N) (x y : ℕ → ℕ
     (s.1 ≠ -((M : ℝ) / 2) → s'.1 = -s.1) ∧ (s.2 ≠ -((N : ℝ) / 2) → s'.2 = -s.2) :=
   shiftNp1_mirror hM hN (corrTable_swap hM hN x y) hmax
 
+/-- **Swapping the two images negates the result, torch estimator (`upsample_factor ≤ 2`)**:
+`torch.round` (half to even) is an odd function and commutes with even integer translations, so the
+half-pixel rounding does not break the symmetry; again except exactly at the `-M/2` tie. -/
+theorem swap_negates_torch {M N : ℕ} (hM : 0 < M) (hN : 0 < N) (x y : ℕ → ℕ → ℝ) (p q : ℕ)
+    (hmax : UniqueMaxAt M N (corrTable M N x y) p q) :
+    let s := shiftTorch2 M N (corrTable M N x y)
+    let s' := shiftTorch2 M N (corrTable M N y x)
+    (s.1 ≠ -((M : ℝ) / 2) → s'.1 = -s.1) ∧ (s.2 ≠ -((N : ℝ) / 2) → s'.2 = -s.2) :=
+  shiftTorch2_mirror hM hN (corrTable_swap hM hN x y) hmax
+
 /-- the swap also mirrors the peak that both variants (NumPy and torch) start from -/
 theorem swap_mirrors_peak {M N : ℕ} (hM : 0 < M) (hN : 0 < N) (x y : ℕ → ℕ → ℝ) (p q : ℕ)
     (hmax : UniqueMaxAt M N (corrTable M N x y) p q) :
@@ -265,6 +275,16 @@ theorem swap_negates_np_fft {M N : ℕ} (hM : 0 < M) (hN : 0 < N) (x y : ℕ →
   rw [correlation_theorem hM hN] at hmax ⊢
   rw [correlation_theorem hM hN y x]
   exact swap_negates_np hM hN x y p q hmax
+
+/-- swap negation of the torch estimator, stated on the FFT tables -/
+theorem swap_negates_torch_fft {M N : ℕ} (hM : 0 < M) (hN : 0 < N) (x y : ℕ → ℕ → ℝ) (p q : ℕ)
+    (hmax : UniqueMaxAt M N (ccRealFFT M N x y) p q) :
+    let s := shiftTorch2 M N (ccRealFFT M N x y)
+    let s' := shiftTorch2 M N (ccRealFFT M N y x)
+    (s.1 ≠ -((M : ℝ) / 2) → s'.1 = -s.1) ∧ (s.2 ≠ -((N : ℝ) / 2) → s'.2 = -s.2) := by
+  rw [correlation_theorem hM hN] at hmax ⊢
+  rw [correlation_theorem hM hN y x]
+  exact swap_negates_torch hM hN x y p q hmax
 
 /-- identical images, every upsampling factor, on the tables the code computes: `cc_real` from the
 FFT formula and the Fourier product `fft2(x)·conj(fft2(x))` handed to `dft_upsample` -/
